@@ -93,6 +93,8 @@ class Tr:
         self.ssa = 0
         self.genexps = {}
         self.methods = {}
+        self._assigned_guard = set()
+        self.constants = {}
         self.tables = {}
         self.inl = 0
         self.nested = {}          # name -> (FunctionDef, outer env) not yet instantiated
@@ -109,6 +111,8 @@ class Tr:
         if isinstance(n, ast.Name):
             if n.id == 'converter' or n.id == 'self':
                 return [], 'cv', 'cv'
+            if n.id not in env and n.id in self.constants:
+                return self.E(self.constants[n.id], env)
             if n.id not in env:
                 fail(f'unknown name {n.id}', n)
             if env[n.id][1] == 'ast':
@@ -295,6 +299,20 @@ class Tr:
             if name == 'str' and len(n.args) == 1:
                 b, v, t = self.E(n.args[0], env)
                 return b, 'tt', 'str'
+            if name == 'reduce' and len(n.args) == 3 and isinstance(n.args[0], ast.Lambda) and len(n.args[0].args.args) == 2:
+                # functools.reduce(lambda acc, x: E, xs, init)  =  fold_left (fun acc x => E) xs init   (E pure)
+                lam = n.args[0]
+                bx, vx, tx = self.E(n.args[1], env)
+                bi, vi, ti = self.E(n.args[2], env)
+                if lst(tx) is None:
+                    fail('reduce over a non-list', n)
+                lenv = dict(env)
+                acc = self.bind_name(lenv, lam.args.args[0].arg, ti)
+                x = self.bind_name(lenv, lam.args.args[1].arg, lst(tx))
+                bb, vb, tb = self.E(lam.body, lenv)
+                if bb or tb != ti:
+                    fail('reduce with an effectful or ill-typed function', n)
+                return bx + bi, f'(fold_left (fun {acc} {x} => {vb}) {vx} {vi})', ti
             if name == 'reversed' and len(n.args) == 1:
                 b, v, t = self.E(n.args[0], env)
                 if lst(t) is None:
@@ -466,7 +484,34 @@ class Tr:
     def helper_def(self, name):
         return self.nested[name][0] if name in self.nested else self.module_funcs[name]
 
-    def inline_call(self, call, targets, node):
+    def bound_names(self, stmts):
+        """names BOUND in a function body (assignment / loop targets); `x.append(..)` and `x[k] = ..` do not bind x"""
+        out = []
+
+        def add(x):
+            if x not in out and x != '_':
+                out.append(x)
+
+        def tgt(t):
+            if isinstance(t, ast.Name):
+                add(t.id)
+            elif isinstance(t, (ast.Tuple, ast.List)):
+                for e in t.elts:
+                    tgt(e)
+            elif isinstance(t, ast.Starred):
+                tgt(t.value)
+        for st in stmts:
+            for x in ast.walk(st):
+                if isinstance(x, ast.Assign):
+                    for t in x.targets:
+                        tgt(t)
+                elif isinstance(x, (ast.AnnAssign, ast.AugAssign)):
+                    tgt(x.target)
+                elif isinstance(x, ast.For):
+                    tgt(x.target)
+        return out
+
+    def inline_call(self, call, targets, node, tail_loop=False):
         """statement-level call of a local / module helper or of a method of the same object (`self.m(..)`) = its body with
         the parameters substituted; `targets = f(args)` needs a body that ends in its only `return`.
         Returns a statement list or None."""
@@ -491,7 +536,11 @@ class Tr:
             return None
         if targets is None:
             if rets:
-                return None
+                # bare `return`s are fine when nothing follows the call in a loop body: they mean `continue`
+                if not tail_loop or any(r.value is not None for r in rets):
+                    return None
+                if any(isinstance(x, (ast.For, ast.While)) and any(isinstance(y, ast.Return) for y in ast.walk(x)) for b in body for x in ast.walk(b)):
+                    return None
             ret_expr = None
         else:
             if len(rets) != 1 or not body or body[-1] is not rets[0] or rets[0].value is None:
@@ -500,7 +549,7 @@ class Tr:
             body = body[:-1]
         self.inl += 1
         params = [a.arg for a in formal]
-        local = [x for x in self.assigned(body) if x not in params]
+        local = [x for x in self.bound_names(body) if x not in params]
         for x in ast.walk(fn):
             if isinstance(x, ast.For):
                 for t in ast.walk(x.target):
@@ -520,6 +569,9 @@ class Tr:
                 if n.id in ren:
                     return ast.copy_location(ast.Name(id=ren[n.id], ctx=n.ctx), n)
                 return n
+
+            def visit_Return(self, n):
+                return ast.copy_location(ast.Continue(), n) if n.value is None else self.generic_visit(n)
         import copy
         out = pre + [Ren().visit(copy.deepcopy(b)) for b in body]
         if ret_expr is not None:
@@ -536,7 +588,7 @@ class Tr:
             return s.test.left.id, s.test.comparators[0].value
         return None
 
-    def canon(self, stmts, env):
+    def canon(self, stmts, env, ctx=None):
         """rewrite the head of a statement list into the canonical idiom; equivalent idioms get the same shape"""
         import copy
         changed = True
@@ -684,7 +736,7 @@ class Tr:
                 c = s.value
                 # helper(args)
                 if isinstance(c.func, ast.Name) and self.is_helper(c.func.id):
-                    inl = self.inline_call(c, None, s)
+                    inl = self.inline_call(c, None, s, tail_loop=(not rest and ctx is not None and ctx.on_continue is not None))
                     if inl is not None:
                         stmts, changed = inl + rest, True
                         continue
@@ -745,6 +797,19 @@ class Tr:
             if x not in out:
                 out.append(x)
         for s in stmts:
+            # a call of a local helper changes whatever the helper changes in the enclosing scope (closure mutation)
+            calls = [x for x in ast.walk(s) if isinstance(x, ast.Call) and isinstance(x.func, ast.Name) and self.is_helper(x.func.id)] \
+                if isinstance(s, (ast.Expr, ast.Assign, ast.AnnAssign)) else []
+            for c in calls:
+                if c.func.id in self._assigned_guard:
+                    continue
+                self._assigned_guard.add(c.func.id)
+                fn = self.helper_def(c.func.id)
+                own = set(self.bound_names(fn.body)) | {a.arg for a in fn.args.args}
+                for x in self.assigned(fn.body):
+                    if x not in own:
+                        add(x)
+                self._assigned_guard.discard(c.func.id)
             if isinstance(s, (ast.Assign, ast.AnnAssign, ast.AugAssign)):
                 tg = s.targets if isinstance(s, ast.Assign) else [s.target]
                 for t in tg:
@@ -796,7 +861,7 @@ class Tr:
         """translate a statement list; `fin(env)` is the term for falling off its end"""
         if not stmts:
             return fin(env)
-        stmts = self.canon(stmts, env)
+        stmts = self.canon(stmts, env, ctx)
         if not stmts:
             return fin(env)
         s, rest = stmts[0], stmts[1:]
@@ -899,6 +964,14 @@ class Tr:
                 return self.seq(b, '') + go(env)
             if isinstance(target, ast.Tuple):
                 # (a, *rest) = xs   or   a, b = pair
+                if len(target.elts) == 2 and isinstance(target.elts[0], ast.Starred) and isinstance(target.elts[1], ast.Name):
+                    if lst(t) is None:
+                        fail('starred unpacking of a non-list', s)
+                    last = self.bind_name(env, target.elts[1].id, lst(t))
+                    self.ssa += 1
+                    rinit = f'v_rinit_{self.ssa}'
+                    env[target.elts[0].value.id] = (f'(rev {rinit})', t)
+                    return self.seq(b, f'match rev {v} with [] => raise | {last} :: {rinit} => ') + go(env) + ' end'
                 if len(target.elts) == 2 and isinstance(target.elts[1], ast.Starred):
                     if lst(t) is None:
                         fail('starred unpacking of a non-list', s)
@@ -1111,6 +1184,17 @@ def generate(repo):
     csrc = open(os.path.join(repo, SRC_CONVERTER)).read()
     ttree, ctree = ast.parse(tsrc), ast.parse(csrc)
     T = Tr()
+    rsrc_path = os.path.join(repo, os.path.dirname(SRC_CONVERTER), 'representation.py')
+    trees = [ttree, ctree] + ([ast.parse(open(rsrc_path).read())] if os.path.exists(rsrc_path) else [])
+    for tr in trees:
+        for st in tr.body:
+            tgt, val = None, None
+            if isinstance(st, ast.Assign) and len(st.targets) == 1 and isinstance(st.targets[0], ast.Name):
+                tgt, val = st.targets[0].id, st.value
+            elif isinstance(st, ast.AnnAssign) and isinstance(st.target, ast.Name) and st.value is not None:
+                tgt, val = st.target.id, st.value
+            if tgt and tgt.isupper() and isinstance(val, ast.Constant) and isinstance(val.value, (int, str)) and not isinstance(val.value, bool):
+                T.constants.setdefault(tgt, val)
 
     # ---- converter.py: split_proof, the statements before the call of parse_lemmas
     sp = find_func(ctree, 'split_proof')
@@ -1196,6 +1280,14 @@ def generate(repo):
         if lst(ti) is None:
             fail('exec_proof: iteration over a non-list', loop)
         used = {x.id for x in ast.walk(loop) if isinstance(x, ast.Name)}
+        grew = True
+        while grew:          # names used inside the helpers the loop calls count as used by the loop
+            grew = False
+            for h in [u for u in used if T.is_helper(u)]:
+                more = {x.id for x in ast.walk(T.helper_def(h)) if isinstance(x, ast.Name)} - used
+                if more:
+                    used |= more
+                    grew = True
         live = [(k, v) for k, v in env1.items() if k in used and k not in W and k != loop.target.id]
         benv = dict(env1)
         import re as _re
